@@ -1,6 +1,17 @@
 // Counting / fault-injecting wrapper around the exported any-store interfaces (DB, Collection, WriteTx, Query).
 // Every call that crosses the storage boundary AND writes (begin, insert, upsert, delete, DDL, commit) gets a
 // number; the controller can make the k-th call fail and is told after every completed call (crash images).
+//
+// Two fault kinds:
+//   - "error":  the k-th call is not executed and returns errInjected; the context of the operation stays alive;
+//   - "cancel": immediately before the k-th call the context THE OPERATION WAS CALLED WITH is cancelled (the harness
+//     runs the operation under context.WithCancel and hands the cancel func to the controller); the call is then
+//     handed UNCHANGED to the real any-store with whatever context the code under test passes, and whatever any-store
+//     answers is returned.  Nothing is simulated: any-store v0.4.7 itself decides what a dead context means
+//     (db.WriteTx: connection manager select / BEGIN IMMEDIATE -> "context canceled" or SQLITE_INTERRUPT; savepoints,
+//     Insert, UpsertId, Find().Delete, DDL: the statement is interrupted -> error; WriteTx.Commit / Rollback take no
+//     context and run on context.Background() -> they SUCCEED).  All later calls of the operation see the dead context.
+//
 // The wrapped WriteTx embeds the real one, which satisfies the unexported methods of the interface; the
 // context handed to collections is the real transaction's context, so reads and writes run inside the real
 // SQLite transaction / savepoint.
@@ -49,15 +60,36 @@ type Ctl struct {
 	failAt   int         // 1-based index of the call that fails; 0 = none
 	injected bool        // the fault fired
 	after    func(k int) // called after the k-th call completed (crash image hook)
+
+	// fault kind "cancel"
+	kind     string             // faultError (default) or faultCancel
+	cancel   context.CancelFunc // cancels the context the operation was called with
+	pending  bool               // the cancelled call has not returned yet
+	ctxDead  bool               // the context handed to the cancelled call was dead (derived from the operation's)
+	callErr  string             // what the real any-store answered to the cancelled call ("" = it succeeded)
+	laterErr int                // number of later storage calls that failed
 }
+
+const (
+	faultError  = "error"
+	faultCancel = "cancel"
+)
 
 func (c *Ctl) start(failAt int, after func(k int)) {
-	c.active, c.n, c.calls, c.failAt, c.injected, c.after = true, 0, nil, failAt, false, after
+	*c = Ctl{active: true, failAt: failAt, after: after, kind: faultError}
 }
-func (c *Ctl) stop() { c.active = false; c.after = nil; c.failAt = 0 }
 
-// enter registers the next call; true = this call must fail.
-func (c *Ctl) enter(rec CallRec) bool {
+// startCancel: the k-th call is preceded by cancel().
+func (c *Ctl) startCancel(failAt int, cancel context.CancelFunc) {
+	*c = Ctl{active: true, failAt: failAt, kind: faultCancel, cancel: cancel}
+}
+
+func (c *Ctl) stop() { c.active = false; c.after = nil; c.failAt = 0; c.cancel = nil }
+
+// enter registers the next call; true = this call must fail with errInjected (kind "error").
+// Kind "cancel": the operation's context is cancelled here and the call goes through to the real store.
+// cx is the context the real call will run under (the transaction's own context for commit / rollback).
+func (c *Ctl) enter(rec CallRec, cx context.Context) bool {
 	if !c.active {
 		return false
 	}
@@ -65,9 +97,35 @@ func (c *Ctl) enter(rec CallRec) bool {
 	c.calls = append(c.calls, rec)
 	if c.failAt == c.n {
 		c.injected = true
+		if c.kind == faultCancel {
+			if c.cancel != nil {
+				c.cancel()
+			}
+			c.pending = true
+			c.ctxDead = cx != nil && cx.Err() != nil
+			return false
+		}
 		return true
 	}
 	return false
+}
+
+// leave reports the result of the real call that followed enter.
+func (c *Ctl) leave(err error) {
+	if !c.active {
+		return
+	}
+	if c.pending {
+		c.pending = false
+		if err != nil {
+			c.callErr = err.Error()
+		}
+	} else if err != nil && c.injected {
+		c.laterErr++
+	}
+	if err == nil {
+		c.done()
+	}
 }
 
 func (c *Ctl) done() {
@@ -84,14 +142,14 @@ type wdb struct {
 }
 
 func (d *wdb) WriteTx(ctx context.Context) (anystore.WriteTx, error) {
-	if d.ctl.enter(CallRec{Kind: "begin"}) {
+	if d.ctl.enter(CallRec{Kind: "begin"}, ctx) {
 		return nil, errInjected
 	}
 	tx, err := d.DB.WriteTx(ctx)
+	d.ctl.leave(err)
 	if err != nil {
 		return nil, err
 	}
-	d.ctl.done()
 	return &wtx{WriteTx: tx, ctl: d.ctl}, nil
 }
 
@@ -107,13 +165,11 @@ func (d *wdb) OpenCollection(ctx context.Context, name string) (anystore.Collect
 }
 
 func (d *wdb) CreateCollection(ctx context.Context, name string) (anystore.Collection, error) {
-	if d.ctl.enter(CallRec{Kind: "meta", What: "create collection " + name}) {
+	if d.ctl.enter(CallRec{Kind: "meta", What: "create collection " + name}, ctx) {
 		return nil, errInjected
 	}
 	c, err := d.wrapColl(d.DB.CreateCollection(ctx, name))
-	if err == nil {
-		d.ctl.done()
-	}
+	d.ctl.leave(err)
 	return c, err
 }
 
@@ -139,14 +195,12 @@ func (t *wtx) Commit() error {
 	if t.WriteTx.Done() {
 		return t.WriteTx.Commit()
 	}
-	if t.ctl.enter(CallRec{Kind: "commit"}) {
+	if t.ctl.enter(CallRec{Kind: "commit"}, t.WriteTx.Context()) {
 		_ = t.WriteTx.Rollback()
 		return errInjected
 	}
 	err := t.WriteTx.Commit()
-	if err == nil {
-		t.ctl.done()
-	}
+	t.ctl.leave(err)
 	return err
 }
 
@@ -154,9 +208,9 @@ func (t *wtx) Rollback() error {
 	if t.WriteTx.Done() {
 		return t.WriteTx.Rollback()
 	}
-	t.ctl.enter(CallRec{Kind: "rollback"}) // never made to fail
+	t.ctl.enter(CallRec{Kind: "rollback"}, t.WriteTx.Context()) // never made to fail (kind "cancel": the context dies here)
 	err := t.WriteTx.Rollback()
-	t.ctl.done()
+	t.ctl.leave(nil)
 	return err
 }
 
@@ -197,13 +251,11 @@ func (c *wcoll) Insert(ctx context.Context, docs ...*anyenc.Value) error {
 		}
 		rec.Docs = append(rec.Docs, dr)
 	}
-	if c.ctl.enter(rec) {
+	if c.ctl.enter(rec, ctx) {
 		return errInjected
 	}
 	err := c.Collection.Insert(ctx, docs...)
-	if err == nil {
-		c.ctl.done()
-	}
+	c.ctl.leave(err)
 	return err
 }
 
@@ -225,45 +277,41 @@ func (c *wcoll) UpsertId(ctx context.Context, id any, mod query.Modifier) (anyst
 			}
 		}
 	}
-	if c.ctl.enter(rec) {
+	if c.ctl.enter(rec, ctx) {
 		return anystore.ModifyResult{}, errInjected
 	}
 	r, err := c.Collection.UpsertId(ctx, id, mod)
-	if err == nil {
-		c.ctl.done()
-	}
+	c.ctl.leave(err)
 	return r, err
 }
 
-func (c *wcoll) other(what string, f func() error) error {
-	if c.ctl.enter(CallRec{Kind: "other", Coll: c.Name(), What: what}) {
+func (c *wcoll) other(ctx context.Context, what string, f func() error) error {
+	if c.ctl.enter(CallRec{Kind: "other", Coll: c.Name(), What: what}, ctx) {
 		return errInjected
 	}
 	err := f()
-	if err == nil {
-		c.ctl.done()
-	}
+	c.ctl.leave(err)
 	return err
 }
 
 func (c *wcoll) UpdateOne(ctx context.Context, doc *anyenc.Value) error {
-	return c.other("UpdateOne", func() error { return c.Collection.UpdateOne(ctx, doc) })
+	return c.other(ctx, "UpdateOne", func() error { return c.Collection.UpdateOne(ctx, doc) })
 }
 func (c *wcoll) UpsertOne(ctx context.Context, doc *anyenc.Value) error {
-	return c.other("UpsertOne", func() error { return c.Collection.UpsertOne(ctx, doc) })
+	return c.other(ctx, "UpsertOne", func() error { return c.Collection.UpsertOne(ctx, doc) })
 }
 func (c *wcoll) UpdateId(ctx context.Context, id any, mod query.Modifier) (r anystore.ModifyResult, err error) {
-	err = c.other("UpdateId", func() error { r, err = c.Collection.UpdateId(ctx, id, mod); return err })
+	err = c.other(ctx, "UpdateId", func() error { r, err = c.Collection.UpdateId(ctx, id, mod); return err })
 	return
 }
 func (c *wcoll) DeleteId(ctx context.Context, id any) error {
-	return c.other("DeleteId", func() error { return c.Collection.DeleteId(ctx, id) })
+	return c.other(ctx, "DeleteId", func() error { return c.Collection.DeleteId(ctx, id) })
 }
 func (c *wcoll) Drop(ctx context.Context) error {
-	return c.other("Drop", func() error { return c.Collection.Drop(ctx) })
+	return c.other(ctx, "Drop", func() error { return c.Collection.Drop(ctx) })
 }
 func (c *wcoll) Rename(ctx context.Context, n string) error {
-	return c.other("Rename", func() error { return c.Collection.Rename(ctx, n) })
+	return c.other(ctx, "Rename", func() error { return c.Collection.Rename(ctx, n) })
 }
 
 func idxName(i anystore.IndexInfo) string {
@@ -290,36 +338,32 @@ func (c *wcoll) EnsureIndex(ctx context.Context, info ...anystore.IndexInfo) err
 	if !c.missingIndex(info) {
 		return c.Collection.EnsureIndex(ctx, info...)
 	}
-	if c.ctl.enter(CallRec{Kind: "meta", What: "create index on " + c.Name()}) {
+	if c.ctl.enter(CallRec{Kind: "meta", What: "create index on " + c.Name()}, ctx) {
 		return errInjected
 	}
 	err := c.Collection.EnsureIndex(ctx, info...)
-	if err == nil {
-		c.ctl.done()
-	}
+	c.ctl.leave(err)
 	return err
 }
 
 func (c *wcoll) CreateIndex(ctx context.Context, info ...anystore.IndexInfo) error {
-	if c.ctl.enter(CallRec{Kind: "meta", What: "create index on " + c.Name()}) {
+	if c.ctl.enter(CallRec{Kind: "meta", What: "create index on " + c.Name()}, ctx) {
 		return errInjected
 	}
 	err := c.Collection.CreateIndex(ctx, info...)
-	if err == nil {
-		c.ctl.done()
-	}
+	c.ctl.leave(err)
 	return err
 }
 
 func (c *wcoll) WriteTx(ctx context.Context) (anystore.WriteTx, error) {
-	if c.ctl.enter(CallRec{Kind: "begin"}) {
+	if c.ctl.enter(CallRec{Kind: "begin"}, ctx) {
 		return nil, errInjected
 	}
 	tx, err := c.Collection.WriteTx(ctx)
+	c.ctl.leave(err)
 	if err != nil {
 		return nil, err
 	}
-	c.ctl.done()
 	return &wtx{WriteTx: tx, ctl: c.ctl}, nil
 }
 
@@ -367,23 +411,19 @@ func (q *wquery) IndexHint(h ...anystore.IndexHint) anystore.Query {
 }
 
 func (q *wquery) Delete(ctx context.Context) (anystore.ModifyResult, error) {
-	if q.c.ctl.enter(CallRec{Kind: "delete", Coll: q.c.Name(), Tree: q.tree}) {
+	if q.c.ctl.enter(CallRec{Kind: "delete", Coll: q.c.Name(), Tree: q.tree}, ctx) {
 		return anystore.ModifyResult{}, errInjected
 	}
 	r, err := q.Query.Delete(ctx)
-	if err == nil {
-		q.c.ctl.done()
-	}
+	q.c.ctl.leave(err)
 	return r, err
 }
 
 func (q *wquery) Update(ctx context.Context, modifier any) (anystore.ModifyResult, error) {
-	if q.c.ctl.enter(CallRec{Kind: "other", Coll: q.c.Name(), What: "Query.Update"}) {
+	if q.c.ctl.enter(CallRec{Kind: "other", Coll: q.c.Name(), What: "Query.Update"}, ctx) {
 		return anystore.ModifyResult{}, errInjected
 	}
 	r, err := q.Query.Update(ctx, modifier)
-	if err == nil {
-		q.c.ctl.done()
-	}
+	q.c.ctl.leave(err)
 	return r, err
 }
